@@ -35,6 +35,8 @@
 #undef private
 #undef protected
 
+#include "msp430ref.h"
+
 static FILE *res;
 static jmp_buf exit_jmp;
 static volatile int in_step = 0;
@@ -383,6 +385,191 @@ static void cmd_msp(char *args)
   delete memory;
 }
 
+
+// mspcell <pc> <ext1> <ext2> <fill: 4 hex digits = word pattern, or h = address hash> <lo> <hi> <flag sets: 16-bit mask> <16 regs>
+//   for every first word w in lo..hi and every selected combination f of C,Z,N,V: memory = fill with w, ext1, ext2 at pc;
+//   registers as given (r0 = pc, r2 = flags); one step of the simulator and one of the reference; differences are printed as
+//     X <w> <f> <class[,class..]> | <what>
+//   summary: S judged=.. unjudged=.. mismatches=.. printed=.. reasons=<why:count;...>
+static uint8_t cell_base[65536 + 8];
+
+static void cmd_mspcell(char *args)
+{
+  unsigned pc, ext1, ext2, lo, hi, fmask;
+  char fill[16];
+  int used;
+  char *p = args;
+  if (sscanf(p, "%x %x %x %15s %x %x %x%n", &pc, &ext1, &ext2, fill, &lo, &hi, &fmask, &used) != 7) { fprintf(res, "E bad mspcell\n"); return; }
+  p += used;
+  unsigned regs[16];
+  for (int i = 0; i < 16; i++) { if (sscanf(p, "%x%n", &regs[i], &used) != 1) { fprintf(res, "E bad mspcell regs\n"); return; } p += used; }
+  memset(cell_base, 0, sizeof(cell_base));
+  if (fill[0] == 'h') { for (unsigned a = 0; a < 65536; a++) { cell_base[a] = (a * 37 + (a >> 8) * 11 + 5) & 0xff; } }
+  else
+  {
+    unsigned word = strtoul(fill, NULL, 16);
+    for (unsigned a = 0; a < 65536; a++) { cell_base[a] = (a & 1) ? (word >> 8) : (word & 0xff); }
+  }
+  cell_base[(pc + 2) & 0xffff] = ext1 & 0xff; cell_base[(pc + 3) & 0xffff] = ext1 >> 8;
+  cell_base[(pc + 4) & 0xffff] = ext2 & 0xff; cell_base[(pc + 5) & 0xffff] = ext2 >> 8;
+  Memory *memory = new Memory();
+  memory->endian = ENDIAN_LITTLE;
+  for (unsigned a = 0; a < 65536; a++) { memory->write8(a, cell_base[a]); }
+  fflush(stdout);
+  int saved = dup(1);
+  int nul = open("/dev/null", O_WRONLY);
+  dup2(nul, 1);
+  SpyMsp430 *sim = new SpyMsp430(memory);
+  sim->set_show(false);
+  sim->enable_step_mode();
+  Msp430Ref ref;
+  ref.mem = cell_base;
+  long judged = 0, unjudged = 0, mismatches = 0, printed = 0;
+  std::map<std::string, long> reasons;
+  for (unsigned w = lo; w <= hi; w++)
+  {
+    cell_base[pc & 0xffff] = w & 0xff; cell_base[(pc + 1) & 0xffff] = w >> 8;
+    memory->write8(pc & 0xffff, w & 0xff); memory->write8((pc + 1) & 0xffff, w >> 8);
+    for (int f = 0; f < 16; f++)
+    {
+      if (!(fmask & (1u << f))) { continue; }
+      unsigned sr = (f & 1) | ((f & 2) ? 2 : 0) | ((f & 4) ? 4 : 0) | ((f & 8) ? 0x100 : 0);
+      for (int i = 0; i < 16; i++) { ref.r[i] = regs[i]; sim->reg[i] = regs[i]; }
+      ref.r[0] = pc; sim->reg[0] = pc;
+      ref.r[2] = sr; sim->reg[2] = sr;
+      ref.step();
+      sim->writes.clear();
+      sim->cycle_count = 0;
+      sim->nested_call_count = 0;
+      off_t e0 = err_pos();
+      int ret = 0;
+      bool exited = false;
+      in_step = 1;
+      if (setjmp(exit_jmp) == 0) { ret = sim->run(-1, 1); } else { exited = true; ret = exit_code; }
+      in_step = 0;
+      bool san = err_pos() != e0;
+      // undo the simulator's writes
+      for (size_t i = sim->writes.size(); i-- > 0;)
+      {
+        uint32_t a = sim->writes[i].first;
+        memory->write8(a, a < 65536 ? cell_base[a] : 0);
+      }
+      if (!ref.judged)
+      {
+        unjudged++; reasons[ref.why]++;
+        if (san || exited) { mismatches++; if (printed < 20000) { printed++; fprintf(res, "X %04x %x %s | unjudged step (%s)\n", w, f, exited ? "exit" : "sanitizer", ref.why); } }
+        continue;
+      }
+      judged++;
+      std::string cls, what;
+      char t[160];
+      if (exited) { cls += "exit,"; snprintf(t, sizeof(t), "exit(%d) called; ", ret); what += t; }
+      if (san) { cls += "sanitizer,"; }
+      if (!exited && ret != 0) { cls += "ret,"; snprintf(t, sizeof(t), "run() returned %d; ", ret); what += t; }
+      if (!exited)
+      {
+        bool regdiff = false, flagdiff = false;
+        for (int i = 0; i < 16; i++)
+        {
+          if (i == 3) { continue; }
+          unsigned a = sim->reg[i] & 0xffff, b = ref.r[i];
+          if (i == 2) { a &= ~ref.sr_ignore; b &= ~ref.sr_ignore; }
+          if (a != b)
+          {
+            if (i == 2 && ((a ^ b) & ~0x107u) == 0) { flagdiff = true; } else { regdiff = true; }
+            snprintf(t, sizeof(t), "r%d=%04x want %04x; ", i, a, b); what += t;
+          }
+          if ((sim->reg[i] & ~0xffffu) != 0) { regdiff = true; snprintf(t, sizeof(t), "r%d holds more than 16 bits (%x); ", i, (unsigned)sim->reg[i]); what += t; }
+        }
+        if (regdiff) { cls += "regs,"; }
+        if (flagdiff) { cls += "flags,"; }
+        std::map<uint32_t, int> ws, wr;
+        for (size_t i = 0; i < sim->writes.size(); i++) { ws[sim->writes[i].first] = sim->writes[i].second; }
+        for (size_t i = 0; i < ref.writes.size(); i++) { wr[ref.writes[i].first] = ref.writes[i].second; }
+        for (size_t i = 0; i < ref.dontcare.size(); i++) { ws.erase(ref.dontcare[i]); wr.erase(ref.dontcare[i]); }
+        if (ws != wr)
+        {
+          cls += "memory,";
+          what += "writes";
+          for (std::map<uint32_t, int>::iterator it = ws.begin(); it != ws.end(); ++it) { snprintf(t, sizeof(t), " %x:%02x", it->first, it->second); what += t; }
+          what += " want";
+          for (std::map<uint32_t, int>::iterator it = wr.begin(); it != wr.end(); ++it) { snprintf(t, sizeof(t), " %x:%02x", it->first, it->second); what += t; }
+          what += "; ";
+        }
+        if (sim->cycle_count != ref.cycles) { cls += "cycles,"; snprintf(t, sizeof(t), "cycles %d want %d; ", sim->cycle_count, ref.cycles); what += t; }
+      }
+      if (!cls.empty())
+      {
+        mismatches++;
+        cls.erase(cls.size() - 1);
+        if (printed < 20000) { printed++; fprintf(res, "X %04x %x %s | %s\n", w, f, cls.c_str(), what.c_str()); }
+      }
+    }
+  }
+  fflush(stdout);
+  dup2(saved, 1);
+  close(saved);
+  close(nul);
+  delete sim;
+  delete memory;
+  fprintf(res, "S judged=%ld unjudged=%ld mismatches=%ld printed=%ld reasons=", judged, unjudged, mismatches, printed);
+  for (std::map<std::string, long>::iterator it = reasons.begin(); it != reasons.end(); ++it) { fprintf(res, "%s:%ld;", it->first.c_str(), it->second); }
+  fprintf(res, "\n");
+  fflush(res);
+}
+
+// msprun <break_io hex or -> <max steps> <nmem> {<addr> <byte>}*n : the reference model runs a program the way `naken_util -run` is
+// documented to: registers 0, PC from the reset vector, SP 0x800; stop after the ret that has no matching call, or at a write to break_io
+//   result: R <ret|breakio|limit|unjudged> <exit status> <cycles> <steps> <16 regs>
+static void cmd_msprun(char *args)
+{
+  char bio[32];
+  int maxsteps, nmem, used;
+  char *p = args;
+  if (sscanf(p, "%31s %d %d%n", bio, &maxsteps, &nmem, &used) != 3) { fprintf(res, "E bad msprun\n"); return; }
+  p += used;
+  static uint8_t mem[65536];
+  memset(mem, 0, sizeof(mem));
+  for (int i = 0; i < nmem; i++)
+  {
+    unsigned a, b;
+    if (sscanf(p, "%x %x%n", &a, &b, &used) != 2) { break; }
+    p += used;
+    mem[a & 0xffff] = b;
+  }
+  long break_io = bio[0] == '-' ? -1 : strtol(bio, NULL, 16);
+  Msp430Ref ref;
+  ref.mem = mem;
+  memset(ref.r, 0, sizeof(ref.r));
+  ref.r[0] = mem[0xfffe] | (mem[0xffff] << 8);
+  ref.r[1] = 0x800;
+  long cycles = 0;
+  int depth = 0, steps = 0, status = 0;
+  const char *how = "limit";
+  while (steps < maxsteps)
+  {
+    uint16_t w = mem[ref.r[0]] | (mem[(ref.r[0] + 1) & 0xffff] << 8);
+    if ((w & 0xff80) == 0x1280) { depth++; }
+    if (w == 0x4130) { depth--; }
+    ref.step();
+    steps++;
+    if (!ref.judged) { how = "unjudged"; break; }
+    cycles += ref.cycles;
+    bool hit = false;
+    for (size_t i = 0; i < ref.writes.size(); i++)
+    {
+      mem[ref.writes[i].first] = ref.writes[i].second;
+      if (!hit && (long)ref.writes[i].first == break_io) { hit = true; status = ref.writes[i].second; }
+    }
+    if (hit) { how = "breakio"; break; }
+    if (depth < 0) { how = "ret"; break; }
+  }
+  fprintf(res, "R %s %d %ld %d", how, status, cycles, steps);
+  for (int i = 0; i < 16; i++) { fprintf(res, " %x", ref.r[i]); }
+  fprintf(res, "%s%s\n", ref.judged ? "" : " | ", ref.judged ? "" : ref.why);
+  fflush(res);
+}
+
 int main(int argc, char *argv[])
 {
   if (argc < 3) { return 2; }
@@ -402,6 +589,8 @@ int main(int argc, char *argv[])
     if (strncmp(line, "cell ", 5) == 0) { cmd_cell(line + 5); }
     else if (strncmp(line, "msp ", 4) == 0) { cmd_msp(line + 4); }
     else if (strncmp(line, "one ", 4) == 0) { cmd_one(line + 4); }
+    else if (strncmp(line, "mspcell ", 8) == 0) { cmd_mspcell(line + 8); }
+    else if (strncmp(line, "msprun ", 7) == 0) { cmd_msprun(line + 7); }
     else { fprintf(res, "E unknown command\n"); }
     fprintf(res, "D %d\n", n);
     fflush(res);
